@@ -965,6 +965,146 @@ def nested_placement_rule(ctx, rid, missing):
     return rr
 
 
+def _rows_are_kwargs(df, prog=None):
+    """The rows results_to_df collects are the elements of a sequence it is handed (the kwargs dicts), not dicts it
+    builds: a loop / comprehension over zip(<parameter>, ...) whose target for that position is appended, is the
+    element expression itself, or is handed to a module function that returns that very argument."""
+    def targets(t):
+        return [x.id if isinstance(x, ast.Name) else None for x in (t.elts if isinstance(t, ast.Tuple) else [t])]
+
+    def from_param(tg, it, name):
+        if not (isinstance(it, ast.Call) and norm(it.func) == "zip"):
+            return False
+        ts = targets(tg)
+        if name not in ts or ts.index(name) >= len(it.args):
+            return False
+        src = it.args[ts.index(name)]
+        return isinstance(src, ast.Name) and src.id in df.params
+
+    def returns_arg(call, name):
+        # call(..name..) where the callee, a function of the same module, returns the parameter bound to `name`
+        if prog is None or not isinstance(call, ast.Call) or not isinstance(call.func, ast.Name):
+            return False
+        cf = prog.func("%s.%s" % (df.module.name, call.func.id))
+        if cf is None:
+            return False
+        pos = [i for i, a_ in enumerate(call.args) if isinstance(a_, ast.Name) and a_.id == name]
+        if len(pos) != 1 or pos[0] >= len(cf.positional):
+            return False
+        par = cf.positional[pos[0]]
+        rets = [r for r in walk_shallow(cf.node) if isinstance(r, ast.Return)]
+        if any(isinstance(x, (ast.Assign, ast.AugAssign)) and any(norm(t_) == par for t_ in (x.targets if isinstance(x, ast.Assign) else [x.target])) for x in walk_shallow(cf.node)):
+            return False
+        return bool(rets) and all(r.value is not None and norm(r.value) == par for r in rets)
+    for n in ast.walk(df.node):
+        if isinstance(n, ast.For):
+            apps = [c for c in ast.walk(n) if isinstance(c, ast.Call) and isinstance(c.func, ast.Attribute) and c.func.attr == "append" and len(c.args) == 1]
+            for c in apps:
+                a0 = c.args[0]
+                if isinstance(a0, ast.Name) and from_param(n.target, n.iter, a0.id) and not any(
+                        isinstance(x, ast.Assign) and any(norm(t_) == a0.id for t_ in x.targets) for x in ast.walk(n)):
+                    return True
+                if isinstance(a0, ast.Call):
+                    for nm_ in targets(n.target):
+                        if nm_ and from_param(n.target, n.iter, nm_) and returns_arg(a0, nm_):
+                            return True
+        if isinstance(n, (ast.ListComp, ast.GeneratorExp)) and len(n.generators) == 1:
+            gen = n.generators[0]
+            for nm_ in targets(gen.target):
+                if nm_ and from_param(gen.target, gen.iter, nm_) and ((isinstance(n.elt, ast.Name) and n.elt.id == nm_) or returns_arg(n.elt, nm_)):
+                    return True
+    return False
+
+
+def row_labels_rule(ctx, rid):
+    """The argument columns of a DataFrame row are the keyword arguments the function was called with.  Today the
+    rows ARE the kwargs dicts.  When a tree rebuilds the rows (from locations and constants), the precedence between a
+    swept value and a constant of the same name must be the one the call itself used -- compared as ordered merge
+    layers (later wins) of the two constructions."""
+    rr = ctx.rule(rid, "table rows carry the arguments of the call: the rows are the kwargs dicts themselves, or are rebuilt with the same precedence between swept values and constants", floor=1)
+    prog = ctx.prog
+    df = prog.need_func(CR + ".results_to_df")
+    ctx.touch(df)
+    if _rows_are_kwargs(df, prog):
+        rr.ok("rows are the elements of a sequence handed in (the kwargs dicts; pairing and provenance: R1)")
+        return rr
+    loops = [n for n in walk_shallow(df.node) if isinstance(n, ast.For) and isinstance(n.iter, ast.Call) and norm(n.iter.func) == "zip"]
+    need(len(loops) == 1, "idiom changed: the row loop of results_to_df (%d zip loops)" % len(loops))
+    lp = loops[0]
+    apps = [c for c in ast.walk(lp) if isinstance(c, ast.Call) and isinstance(c.func, ast.Attribute) and c.func.attr == "append" and len(c.args) == 1 and isinstance(c.args[0], ast.Name)]
+    need(len(apps) == 1, "idiom changed: results_to_df collects its rows at %d sites" % len(apps))
+    row = apps[0].args[0].id
+    tg = [t.id for t in (lp.target.elts if isinstance(lp.target, ast.Tuple) else [lp.target]) if isinstance(t, ast.Name)]
+    if row in tg:
+        src = lp.iter.args[tg.index(row)] if tg.index(row) < len(lp.iter.args) else None
+        if isinstance(src, ast.Name) and src.id in df.params:
+            rr.ok("rows are the elements of `%s` handed in (the kwargs dicts; pairing and provenance: R1)" % src.id)
+            return rr
+        raise AnalysisError("idiom changed: the rows of results_to_df come from `%s`" % (norm(src) if src is not None else "?"))
+
+    def layers_of(stmts, var, const_names, fi):
+        out = []
+        for st in stmts:
+            for n in ast.walk(st):
+                if isinstance(n, ast.Assign) and len(n.targets) == 1 and norm(n.targets[0]) == var:
+                    out = []
+                    vals = n.value.values if isinstance(n.value, ast.Dict) and all(k is None for k in n.value.keys) else [n.value]
+                    for v in vals:
+                        t = norm(v)
+                        if t in const_names or t in ("dict(%s)" % c for c in const_names):
+                            out.append("const")
+                        elif "zip(" in t:
+                            out.append("loc")
+                        elif t in ("{}", "dict()"):
+                            pass
+                        else:
+                            raise AnalysisError("idiom changed: `%s = %s` in %s" % (var, t[:50], fi.name))
+                elif isinstance(n, ast.Call) and isinstance(n.func, ast.Attribute) and n.func.attr == "update" and norm(n.func.value) == var and len(n.args) == 1:
+                    t = norm(n.args[0])
+                    if t in const_names:
+                        out.append("const")
+                    elif "zip(fn_args" in t or "zip(names" in t:
+                        out.append("loc")
+        return out
+    # the rows are rebuilt: which parameter of results_to_df holds the constants?
+    callers = [(f, c) for f in prog.all_funcs() for _, c, nm in all_calls(ctx, f) if nm == CR + ".results_to_df"]
+    need(callers, "anchor lost: callers of results_to_df")
+    cpar = set()
+    for f, c in callers:
+        for k in c.keywords:
+            if k.arg and norm(k.value) == "constants":
+                cpar.add(k.arg)
+    need(len(cpar) == 1, "idiom changed: results_to_df rebuilds its rows but is handed the constants under %d names" % len(cpar))
+    dl = layers_of(lp.body, row, cpar, df)
+    core = prog.need_func(CORE)
+    ctx.touch(core)
+    sap = [c for c in ast.walk(core.node) if isinstance(c, ast.Call) and isinstance(c.func, ast.Attribute) and c.func.attr == "append" and norm(c.func.value) == "settings" and len(c.args) == 1 and isinstance(c.args[0], ast.Name)]
+    need(sap, "anchor lost: settings.append(<kwargs>) in combo_runner_core")
+    cls_ = set()
+    for c in sap:
+        body = None
+        for p_ in _anc(c):
+            if isinstance(p_, ast.For):
+                body = p_.body
+                break
+        need(body is not None, "idiom changed: settings.append outside a loop")
+        cls_.add(tuple(layers_of(body, c.args[0].id, {"constants"}, core)))
+    need(len(cls_) == 1, "idiom changed: the kwargs are built in %d different ways in combo_runner_core" % len(cls_))
+    cl = list(cls_.pop())
+    if "loc" not in dl or "loc" not in cl:
+        raise AnalysisError("idiom changed: rebuilt rows / kwargs without a recognisable names-x-location layer (rows %s, kwargs %s)" % (dl, cl))
+    def wins(ls):
+        return "const" if "const" in ls and max(i for i, x in enumerate(ls) if x == "const") > max(i for i, x in enumerate(ls) if x == "loc") else "loc"
+    if ("const" in dl) != ("const" in cl):
+        raise AnalysisError("idiom changed: constants are merged into %s only (rows %s, kwargs %s)" % ("the rows" if "const" in dl else "the kwargs", dl, cl))
+    if wins(dl) == wins(cl):
+        rr.ok("rows rebuilt with the precedence of the call (%s wins in both)" % wins(cl))
+    else:
+        rr.bad(ctx.finding(rid, df, lp, "results_to_df rebuilds each row's argument columns with the %s winning for a name that is both swept and a constant, while combo_runner_core calls the function with the %s winning: for such a name the row records a value the function was not called with, so its output columns are not the function's value at the recorded arguments" % (
+            "constant" if wins(dl) == "const" else "swept value", "constant" if wins(cl) == "const" else "swept value"), construct="row-precedence"), "row precedence")
+    return rr
+
+
 # ====================================================================== C02
 def disjoint_gate_rule(ctx, rid):
     """C02.R1: an argument in both cases and combos is rejected before
@@ -1446,6 +1586,9 @@ def resources_rule(ctx, rid):
                 rr.ok("results_to_ds(constants=constants, attrs=attrs): resources absent")
         if nm == CR + ".results_to_df":
             kr = arg(c, None, "resources")
+            if (kr is None or norm(kr) != "resources") and not _rows_are_kwargs(prog.need_func(CR + ".results_to_df"), prog):
+                # the rows are rebuilt from something else than the kwargs dicts: the absence of the resources argument says nothing
+                raise AnalysisError("idiom changed: results_to_df builds its rows itself and is not told the resources; whether resource keys can be among what the rows are built from is not analysed")
             if kr is None or norm(kr) != "resources":
                 rr.bad(ctx.finding(rid, f, c, "results_to_df is not told which keys are resources", construct="df-resources"), "df resources")
             else:
@@ -1467,6 +1610,8 @@ def resources_rule(ctx, rid):
                 ok = True
     if ok:
         rr.ok("every resource key is popped from every row (for k in resources: row.pop(k, ...))")
+    elif not _rows_are_kwargs(df, prog):
+        raise AnalysisError("idiom changed: results_to_df builds its rows itself and pops nothing; whether resource keys can be among what the rows are built from is not analysed")
     else:
         rr.bad(ctx.finding(rid, df, df.node, "results_to_df (and its helpers) no longer remove the resource keys from the rows: resources are recorded in the DataFrame", construct="df-pop-resources"), "df pops")
     return rr
